@@ -1,11 +1,17 @@
 // Harness for C08 (stream-id allocator, internal/streams): runs the REAL IDGenerator
-//   - sequentially on random op sequences (`seq` lines), and
+//
+//   - sequentially on random op sequences (`seq` lines: exact answers compared with the model; `smon` lines:
+//     every answer judged by the abstract id-set specification kept in this harness, runSmon), and
+//
 //   - in lock-step: k goroutines run scripts of GetStream/Clear/Available; the `verif` yield
 //     points (internal/streams/yield_on.go) park a goroutine in front of every atomic operation
 //     and a deterministic scheduler lets exactly one goroutine perform exactly one atomic
 //     operation per scheduling decision (`conc` lines). The observation stream (yield point
 //     reached / value returned per decision, final Available and bitset) is compared with the
 //     Lean small-step model replaying the same schedule.
+//
+//     The property monitors are evaluated on the real run of EVERY lock-step scenario, whether the scripts
+//     respect the client protocol (Clear only by the holder, once) or not (`mon` lines; runConcX).
 //
 // Every op line is a self-contained scenario (see lean/Driver/C08.lean for the grammar).
 package main
@@ -140,6 +146,104 @@ func seqTok(g *gocql.VerifStreams, w string) (string, bool) {
 	return "", false
 }
 
+// ---------------------------------------------------------------- sequential spec monitor
+
+// runSmon runs the ops (g, c<id>, a, G<cnt>) on the real generator and judges every answer by the abstract
+// specification (a set of handed-out ids kept HERE, independent of the code): an id handed out is in
+// 1..NumStreams-1 and was free; GetStream fails only when every non-reserved id is handed out; Clear reports
+// whether the id was handed out (index panic beyond the capacity); Available() = NumStreams-1-#handed out after
+// every op. `n/a` if Clear(0) is among the ops (excluded case).
+func runSmon(proto int, toks []string) (res string) {
+	for _, w := range toks {
+		if strings.HasPrefix(w, "c") {
+			if id, err := strconv.Atoi(w[1:]); err == nil && id == 0 {
+				return "n/a"
+			}
+		}
+	}
+	g := gocql.VerifStreamsNew(proto)
+	capN := g.NumStreams()
+	held := make([]bool, capN)
+	cnt := 0
+	k := 0
+	fail := func(what string) string { return fmt.Sprintf("violated:op%d:%s", k, what) }
+	checkAvail := func() string {
+		if a, want := doAvail(g), fmt.Sprintf("a=%d", capN-1-cnt); a != want {
+			return fail("Available-" + a + "-but-" + strconv.Itoa(cnt) + "-handed-out")
+		}
+		return ""
+	}
+	get := func() string {
+		a := doGet(g)
+		switch {
+		case strings.HasSuffix(a, ":t"):
+			id, _ := strconv.Atoi(strings.TrimSuffix(a, ":t"))
+			if id < 1 || id >= capN {
+				return fail("GetStream-returned-out-of-range-id-" + strconv.Itoa(id))
+			}
+			if held[id] {
+				return fail("GetStream-returned-id-in-use-" + strconv.Itoa(id))
+			}
+			held[id] = true
+			cnt++
+		case a == "0:f":
+			if cnt != capN-1 {
+				return fail(fmt.Sprintf("GetStream-reported-exhaustion-with-%d-of-%d-ids-handed-out", cnt, capN-1))
+			}
+		default:
+			return fail("GetStream-" + a)
+		}
+		return checkAvail()
+	}
+	for _, w := range toks {
+		k++
+		switch {
+		case w == "g":
+			if v := get(); v != "" {
+				return v
+			}
+		case w == "a":
+			if v := checkAvail(); v != "" {
+				return v
+			}
+		case strings.HasPrefix(w, "G"):
+			c, err := strconv.Atoi(w[1:])
+			if err != nil || c < 0 {
+				return "bad-op"
+			}
+			for i := 0; i < c; i++ {
+				if v := get(); v != "" {
+					return v
+				}
+			}
+		case strings.HasPrefix(w, "c"):
+			id, err := strconv.Atoi(w[1:])
+			if err != nil || id < 0 {
+				return "bad-op"
+			}
+			a := doClear(g, id)
+			switch {
+			case id >= capN:
+				if a != "crash:index" {
+					return fail(fmt.Sprintf("Clear-%d-beyond-capacity-answered-%s", id, a))
+				}
+			case a == "T" && held[id]:
+				held[id] = false
+				cnt--
+			case a == "F" && !held[id]:
+			default:
+				return fail(fmt.Sprintf("Clear-%d-answered-%s-handed-out-%v", id, a, held[id]))
+			}
+			if v := checkAvail(); v != "" {
+				return v
+			}
+		default:
+			return "bad-op"
+		}
+	}
+	return "ok"
+}
+
 // ---------------------------------------------------------------- lock-step scheduler
 
 type lockstep struct {
@@ -150,13 +254,23 @@ type lockstep struct {
 	pend   []string
 	done   []bool
 	mine   [][]int // per thread: ids acquired and not yet released through `r`
-	// monitors (independent of the model), only meaningful for protocol-respecting scenarios
-	held     map[int]bool
+	// monitors (independent of the model)
+	held     map[int]bool // protocol-respecting scenarios only: ids handed out and not given back
 	monitor  string
 	protocol bool
 	// false-exhaustion monitor: per thread inside GetStream, the ids that have been free at EVERY moment
 	// since the call began (sampled after every atomic step of any thread; nil = not inside GetStream)
 	getFree [][]uint64
+	// protocol-free monitors (ALL scenarios): per id, the number of GetStream calls that returned it and
+	// the number of Clear(id) calls that returned true or panicked 'negative' (both after clearing the bit)
+	got, rel map[int]int
+	w0       []uint64 // bitset after the sequential prefix
+	at       []int    // yield point the thread is parked at (0 = not inside the allocator)
+	curClear []int    // id of the Clear call the thread is in (-1 = none)
+	pendAcq  []int    // id whose bit the thread's GetStream has set by CAS, call not yet returned (-1 = none)
+	c0       bool     // excluded case 1 has happened: Clear(0) called
+	excl     bool     // excluded case 1 or 2 (a Clear CAS cleared the bit of an id whose GetStream had not returned yet)
+	nRogue   int
 }
 
 // wordsNow: the bitset words (bit 63-j of word w = id 64w+j), read while every other goroutine is parked
@@ -204,6 +318,7 @@ func hook(k int) {
 		return
 	}
 	t := ls.cur
+	ls.at[t] = k
 	ev := "y" + strconv.Itoa(k)
 	if ls.pend[t] != "" {
 		ev = ls.pend[t] + ":" + ev
@@ -219,11 +334,10 @@ func (ls *lockstep) thread(t int, script []string) {
 		var ret string
 		switch {
 		case op == "g":
-			if ls.protocol {
-				ls.getFree[t] = freeMask(ls.g)
-			}
+			ls.getFree[t] = freeMask(ls.g)
 			ret = doGet(ls.g)
-			if ls.protocol && strings.HasSuffix(ret, ":f") {
+			ls.pendAcq[t] = -1
+			if strings.HasSuffix(ret, ":f") {
 			scan:
 				for w, m := range ls.getFree[t] {
 					for j := 0; j < 64; j++ {
@@ -238,13 +352,16 @@ func (ls *lockstep) thread(t int, script []string) {
 			if strings.HasSuffix(ret, ":t") {
 				id, _ := strconv.Atoi(strings.TrimSuffix(ret, ":t"))
 				ls.mine[t] = append(ls.mine[t], id)
+				ls.got[id]++
 				if ls.protocol && ls.held[id] {
 					ls.monitor += fmt.Sprintf(" MONITOR:duplicate-id-%d", id)
 				}
-				if ls.protocol && (id < 1 || id >= ls.g.NumStreams()) {
+				if !ls.c0 && (id < 1 || id >= ls.g.NumStreams()) {
 					ls.monitor += fmt.Sprintf(" MONITOR:id-out-of-range-%d", id)
 				}
 				ls.held[id] = true
+			} else if !strings.HasSuffix(ret, ":f") {
+				ls.monitor += " MONITOR:GetStream-" + ret
 			}
 		case op == "a":
 			ret = doAvail(ls.g)
@@ -252,25 +369,52 @@ func (ls *lockstep) thread(t int, script []string) {
 			if n := len(ls.mine[t]); n > 0 {
 				id := ls.mine[t][n-1]
 				ls.mine[t] = ls.mine[t][:n-1]
-				delete(ls.held, id)
-				ret = doClear(ls.g, id)
+				ret = ls.clear(t, id)
 			} else {
 				ret = doAvail(ls.g)
 			}
 		case strings.HasPrefix(op, "c"):
 			id, _ := strconv.Atoi(op[1:])
-			delete(ls.held, id)
-			ret = doClear(ls.g, id)
+			ret = ls.clear(t, id)
 		default:
 			ret = "bad-op"
 		}
 		ls.pend[t] = ret
+		ls.at[t] = 0
 	}
 	ev := "d"
 	if ls.pend[t] != "" {
 		ev = ls.pend[t] + ":d"
 	}
 	ls.parked <- ev
+}
+
+// clear: Clear(id) called by thread t (running; the first atomic operation of the call is performed now)
+func (ls *lockstep) clear(t, id int) string {
+	delete(ls.held, id)
+	if id == 0 {
+		ls.c0, ls.excl = true, true
+	}
+	ls.curClear[t] = id
+	ret := doClear(ls.g, id)
+	ls.curClear[t] = -1
+	switch ret {
+	case "T":
+		ls.rel[id]++
+	case "F":
+	case "crash:negative":
+		ls.rel[id]++ // the bit was cleared and the counter decremented before the panic
+		if !ls.excl {
+			ls.monitor += fmt.Sprintf(" MONITOR:negative-streams-inuse-panic-in-Clear-%d", id)
+		}
+	case "crash:index":
+		if id < ls.g.NumStreams() {
+			ls.monitor += fmt.Sprintf(" MONITOR:index-panic-in-Clear-%d", id)
+		}
+	default:
+		ls.monitor += fmt.Sprintf(" MONITOR:Clear-%d-%s", id, ret)
+	}
+	return ret
 }
 
 // step lets thread t perform one atomic operation; returns the observation.
@@ -282,16 +426,45 @@ func (ls *lockstep) step(t int) string {
 		return strconv.Itoa(t) + ":-"
 	}
 	ls.cur = t
+	prev := ls.at[t]
+	var before []uint64
+	if prev == 5 {
+		before = wordsNow(ls.g)
+	}
 	ls.resume[t] <- struct{}{}
 	select {
 	case ev := <-ls.parked:
 		if ev == "d" || strings.HasSuffix(ev, ":d") {
 			ls.done[t] = true
 		}
+		// bookkeeping for the excluded case 2 (observations of the real run only)
+		if prev == 5 && ev == "y7" { // GetStream's CAS succeeded: which bit did it set?
+			for w, v := range wordsNow(ls.g) {
+				if d := v &^ before[w]; d != 0 {
+					for j := 0; j < 64; j++ {
+						if d>>(63-uint(j))&1 == 1 {
+							ls.pendAcq[t] = w*64 + j
+						}
+					}
+				}
+			}
+		}
+		if prev == 9 && ev == "y11" { // Clear's CAS succeeded
+			for u, id := range ls.pendAcq {
+				if u != t && id >= 0 && id == ls.curClear[t] {
+					ls.excl = true
+					ls.nRogue++
+				}
+			}
+		}
 		ls.sample()
 		return strconv.Itoa(t) + ":" + ev
 	case <-time.After(20 * time.Second):
+		// a goroutine that does not reach its next yield point / return within 20 s while it is the only
+		// runnable one is stuck inside the allocator: dump every goroutine so that the report shows where
 		ls.done[t] = true
+		buf := make([]byte, 1<<20)
+		fmt.Fprintf(os.Stderr, "c08: goroutine %d did not reach its next yield point within 20s; goroutine dump:\n%s\n", t, buf[:runtime.Stack(buf, true)])
 		return strconv.Itoa(t) + ":hang"
 	}
 }
@@ -299,17 +472,29 @@ func (ls *lockstep) step(t int) string {
 // runConc executes one `conc` scenario. If sched is nil the schedule is produced by `choose`
 // (used by the enumeration), which gets the list of unfinished threads.
 func runConc(proto, k int, pre []string, scripts [][]string, sched []int, choose func(enabled []int) int) (answer string, full []int, verdict string) {
+	answer, full, verdict, _ = runConcX(proto, k, pre, scripts, sched, choose)
+	return
+}
+
+func runConcX(proto, k int, pre []string, scripts [][]string, sched []int, choose func(enabled []int) int) (answer string, full []int, verdict string, ls *lockstep) {
 	g := gocql.VerifStreamsNew(proto)
 	active = nil
 	for _, w := range pre {
 		if _, ok := seqTok(g, w); !ok {
-			return "bad-op", nil, "bad-op"
+			return "bad-op", nil, "bad-op", nil
 		}
 	}
-	ls := &lockstep{g: g, resume: make([]chan struct{}, k), parked: make(chan string), pend: make([]string, k),
-		done: make([]bool, k), mine: make([][]int, k), held: map[int]bool{}, getFree: make([][]uint64, k)}
+	ls = &lockstep{g: g, resume: make([]chan struct{}, k), parked: make(chan string), pend: make([]string, k),
+		done: make([]bool, k), mine: make([][]int, k), held: map[int]bool{}, getFree: make([][]uint64, k),
+		got: map[int]int{}, rel: map[int]int{}, w0: wordsNow(g), at: make([]int, k), curClear: make([]int, k), pendAcq: make([]int, k)}
 	for t := 0; t < k; t++ {
 		ls.resume[t] = make(chan struct{})
+		ls.curClear[t], ls.pendAcq[t] = -1, -1
+	}
+	for _, w := range pre {
+		if w == "c0" {
+			ls.c0, ls.excl = true, true
+		}
 	}
 	// client protocol of the property: every Clear(id) of a script names an id in use after the
 	// prefix, and no id is named twice (`r` releases an id the thread itself acquired)
@@ -369,28 +554,77 @@ func runConc(proto, k int, pre []string, scripts [][]string, sched []int, choose
 		}
 	}
 	active = nil
-	if ls.protocol { // count monitor at quiescence
-		if want := fmt.Sprintf("a=%d", g.NumStreams()-1-len(idsInUse(g))); want != doAvail(g) {
-			ls.monitor += " MONITOR:available-" + doAvail(g) + "-but-free-ids-" + want
+	// monitors at quiescence, ALL scenarios (no client protocol assumed):
+	// (1) per id: successful releases + [bit set now] = acquisitions + [bit set after the prefix]
+	wEnd := wordsNow(g)
+	bit := func(ws []uint64, id int) int {
+		if id/64 >= len(ws) {
+			return 0
+		}
+		return int(ws[id/64] >> (63 - uint(id%64)) & 1)
+	}
+	var ids []int
+	for id := range ls.got {
+		ids = append(ids, id)
+	}
+	for id := range ls.rel {
+		if _, dup := ls.got[id]; !dup {
+			ids = append(ids, id)
+		}
+	}
+	sortInts(ids)
+	a, b := append([]uint64{}, wEnd...), append([]uint64{}, ls.w0...)
+	for _, id := range ids {
+		if ls.rel[id]+bit(wEnd, id) != ls.got[id]+bit(ls.w0, id) {
+			ls.monitor += fmt.Sprintf(" MONITOR:id-%d-released-%d-times-acquired-%d-times-bit-before-%d-after-%d",
+				id, ls.rel[id], ls.got[id], bit(ls.w0, id), bit(wEnd, id))
+		}
+		if id/64 < len(a) {
+			a[id/64] &^= 1 << (63 - uint(id%64))
+			b[id/64] &^= 1 << (63 - uint(id%64))
+		}
+	}
+	for w := range a {
+		if a[w] != b[w] {
+			ls.monitor += fmt.Sprintf(" MONITOR:word-%d-changed-%x-to-%x-without-acquisition-or-release", w, b[w], a[w])
+			break
+		}
+	}
+	// (2) Available() = number of zero bits of the bitset
+	zeros := 0
+	for _, v := range wEnd {
+		for j := 0; j < 64; j++ {
+			if v>>uint(j)&1 == 0 {
+				zeros++
+			}
+		}
+	}
+	if want := fmt.Sprintf("a=%d", zeros); want != doAvail(g) {
+		ls.monitor += " MONITOR:available-" + doAvail(g) + "-but-zero-bits-" + want
+	}
+	for _, o := range obs {
+		if strings.Contains(o, "hang") {
+			ls.monitor += " MONITOR:" + o
+		}
+	}
+	if ls.protocol { // additionally, under the client protocol: held ids = set bits, no panic at all
+		if want := fmt.Sprintf("a=%d", g.NumStreams()-1-len(ls.held)); want != doAvail(g) {
+			ls.monitor += " MONITOR:available-" + doAvail(g) + "-but-held-" + want
 		}
 		if len(ls.held) != len(idsInUse(g)) {
 			ls.monitor += fmt.Sprintf(" MONITOR:held-%d-but-bits-%d", len(ls.held), len(idsInUse(g)))
 		}
-	}
-	verdict = "ok"
-	if !ls.protocol {
-		verdict = "n/a"
-	} else {
 		for _, o := range obs {
-			if strings.Contains(o, "crash") || strings.Contains(o, "hang") {
+			if strings.Contains(o, "crash") {
 				ls.monitor += " MONITOR:" + o
 			}
 		}
-		if ls.monitor != "" {
-			verdict = "violated:" + strings.ReplaceAll(strings.TrimSpace(ls.monitor), " ", ",")
-		}
 	}
-	return strings.Join(obs, " ") + " | " + doAvail(g) + " " + showState(g) + ls.monitor, full, verdict
+	verdict = "ok"
+	if ls.monitor != "" {
+		verdict = "violated:" + strings.ReplaceAll(strings.TrimSpace(ls.monitor), " ", ",")
+	}
+	return strings.Join(obs, " ") + " | " + doAvail(g) + " " + showState(g) + ls.monitor, full, verdict, ls
 }
 
 func parseConc(w []string) (proto, k int, pre []string, scripts [][]string, sched []int, ok bool) {
@@ -467,6 +701,12 @@ func exec(op string) (res string) {
 		}
 		a, _, _ := runConc(proto, k, pre, scripts, sched, nil)
 		return a
+	case "smon":
+		proto, err := strconv.Atoi(w[1])
+		if err != nil {
+			return "bad-op"
+		}
+		return runSmon(proto, w[2:])
 	case "mon":
 		if w[1] != "conc" {
 			return "bad-op"
@@ -479,6 +719,14 @@ func exec(op string) (res string) {
 		return v
 	}
 	return "bad-op"
+}
+
+func parseConcMust(op string) (proto, k int, pre []string, scripts [][]string, sched []int, choose func([]int) int) {
+	proto, k, pre, scripts, sched, ok := parseConc(strings.Fields(op))
+	if !ok {
+		panic("bad fixed scenario: " + op)
+	}
+	return proto, k, pre, scripts, sched, nil
 }
 
 func concLine(proto, k int, pre []string, scripts [][]string, sched []int) string {
@@ -593,6 +841,243 @@ func genSeq(r *vh.Rng, out *vh.Out) {
 		cls += "/128"
 	}
 	out.Case(op, exec(op), cls, true)
+}
+
+// one in bigSmonOneIn 32768-id smon scenarios is kept (a complete fill costs the model > 1 s), at most
+// bigSmonBudget per run
+var bigSmonOneIn = 120
+var bigSmonBudget = 3
+
+func shuffle(r *vh.Rng, a []int) {
+	for i := len(a) - 1; i > 0; i-- {
+		j := r.Intn(i + 1)
+		a[i], a[j] = a[j], a[i]
+	}
+}
+
+// genSmon: fill (completely / nearly / partly), release ids out of allocation order (holes below and above the
+// number of ids in use of a word, first / last word, id 1, id cap-1, whole words, runs, random subsets; double
+// releases, releases of free and out-of-range ids), refill (exactly / beyond / partly), repeat.
+func genSmon(r *vh.Rng, out *vh.Out) {
+	proto := []int{1, 2, 2, 2, 2, 2, 3, 4}[r.Intn(8)]
+	if proto > 2 && (r.Intn(bigSmonOneIn) != 0 || bigSmonBudget == 0) {
+		proto = 2
+	}
+	if proto > 2 {
+		bigSmonBudget--
+	}
+	capN := capOf(proto)
+	g := gocql.VerifStreamsNew(proto)
+	var ops []string
+	emit := func(tok string) {
+		ops = append(ops, tok)
+		seqTok(g, tok)
+	}
+	cls := "smon/"
+	switch r.Intn(6) {
+	case 0, 1, 2:
+		emit(fmt.Sprintf("G%d", capN-1))
+		cls += "full"
+	case 3:
+		emit(fmt.Sprintf("G%d", capN-1-r.Intn(4)))
+		cls += "nearfull"
+	case 4:
+		emit(fmt.Sprintf("G%d", 1+r.Intn(capN-1)))
+		cls += "partial"
+	default:
+		emit(fmt.Sprintf("G%d", capN+r.Intn(3)))
+		cls += "overfull"
+	}
+	rounds := 1 + r.Intn(4)
+	if proto > 2 {
+		rounds = 1 + r.Intn(2)
+	}
+	for ; rounds > 0; rounds-- {
+		inUse := idsInUse(g)
+		if len(inUse) == 0 {
+			emit("g")
+			continue
+		}
+		var sel []int
+		switch r.Intn(7) {
+		case 0: // a few random ids
+			for i := 1 + r.Intn(8); i > 0; i-- {
+				sel = append(sel, inUse[r.Intn(len(inUse))])
+			}
+		case 1: // boundary ids
+			for _, id := range []int{1, 2, 31, 62, 63, 64, 65, 70, 126, 127, capN - 1, capN - 2, capN - 63, capN - 64, capN - 65, capN / 2, capN/2 - 1} {
+				if id >= 1 && id < capN && r.Intn(3) != 0 {
+					sel = append(sel, id)
+				}
+			}
+		case 2: // a run of consecutive ids
+			st := 1 + r.Intn(capN-1)
+			for i, n := 0, 1+r.Intn(70); i < n && st+i < capN; i++ {
+				sel = append(sel, st+i)
+			}
+		case 3: // a whole word, possibly except a few ids
+			wd := []int{0, 1, capN/64 - 1, r.Intn(capN / 64)}[r.Intn(4)]
+			for j := 0; j < 64; j++ {
+				if wd*64+j > 0 && r.Intn(16) != 0 {
+					sel = append(sel, wd*64+j)
+				}
+			}
+		case 4: // one id per word (first words), same position
+			j := r.Intn(64)
+			for wd := 0; wd < capN/64 && wd < 40; wd++ {
+				if wd*64+j > 0 {
+					sel = append(sel, wd*64+j)
+				}
+			}
+		case 5: // about half of everything (small capacity), a sixteenth (big)
+			m := 2
+			if proto > 2 {
+				m = 16
+			}
+			for _, id := range inUse {
+				if r.Intn(m) == 0 {
+					sel = append(sel, id)
+				}
+			}
+		default: // a single id
+			sel = append(sel, inUse[r.Intn(len(inUse))])
+		}
+		switch r.Intn(3) {
+		case 0:
+			shuffle(r, sel)
+		case 1:
+			sortInts(sel)
+		default:
+			sortInts(sel)
+			for i, j := 0, len(sel)-1; i < j; i, j = i+1, j-1 {
+				sel[i], sel[j] = sel[j], sel[i]
+			}
+		}
+		before := len(idsInUse(g))
+		for _, id := range sel {
+			emit(fmt.Sprintf("c%d", id))
+			switch r.Intn(24) {
+			case 0:
+				emit(fmt.Sprintf("c%d", id)) // double release
+			case 1:
+				emit(fmt.Sprintf("c%d", capN+r.Intn(200))) // beyond the capacity
+			case 2:
+				emit("a")
+			}
+		}
+		released := before - len(idsInUse(g))
+		switch r.Intn(5) {
+		case 0: // refill exactly, then one more
+			emit(fmt.Sprintf("G%d", released))
+			emit("g")
+		case 1: // refill beyond
+			emit(fmt.Sprintf("G%d", released+1+r.Intn(3)))
+		case 2: // refill partly
+			emit(fmt.Sprintf("G%d", r.Intn(released+1)))
+		case 3: // one by one
+			n := released + r.Intn(2)
+			if n > 40 {
+				n = 40
+			}
+			for i := 0; i < n; i++ {
+				emit("g")
+			}
+			emit(fmt.Sprintf("G%d", released))
+		default: // up to the brim (a failing GetStream scans every word: the model pays 512 list walks for it)
+			if proto > 2 {
+				emit(fmt.Sprintf("G%d", released+2))
+			} else {
+				emit(fmt.Sprintf("G%d", capN))
+			}
+		}
+	}
+	emit("a")
+	op := fmt.Sprintf("smon %d %s", proto, strings.Join(ops, " "))
+	if proto > 2 {
+		cls += "/32768"
+	} else {
+		cls += "/128"
+	}
+	ans := exec(op)
+	out.Case(op, ans, cls, true)
+	out.Dist["smon-verdict/"+strings.SplitN(ans, ":", 2)[0]]++
+}
+
+// genConcRace: racing releases of ONE id by 2..3 goroutines (double release), together with acquisitions and
+// other releases, on generators with few or many ids in use.
+func genConcRace(r *vh.Rng, out *vh.Out) {
+	proto := 2
+	if r.Intn(10) == 0 {
+		proto = 3
+	}
+	var pre []string
+	var inUse []int
+	switch r.Intn(4) {
+	case 0: // very few ids in use: the counter is near zero
+		pre = []string{fmt.Sprintf("G%d", 1+r.Intn(3))}
+	case 1:
+		pre = []string{fmt.Sprintf("G%d", 1+r.Intn(70))}
+	default:
+		pre, inUse = genPrefill(r, proto)
+	}
+	if len(inUse) == 0 {
+		if len(pre) == 0 {
+			pre = []string{fmt.Sprintf("G%d", 1+r.Intn(5))}
+		}
+		g := gocql.VerifStreamsNew(proto)
+		for _, w := range pre {
+			seqTok(g, w)
+		}
+		inUse = idsInUse(g)
+	}
+	k := 2 + r.Intn(3)
+	x := inUse[r.Intn(len(inUse))]
+	racers := 2 + r.Intn(2)
+	if racers > k {
+		racers = k
+	}
+	cx := fmt.Sprintf("c%d", x)
+	scripts := make([][]string, k)
+	steps := 0
+	rnd := func() string {
+		switch y := r.Intn(10); {
+		case y < 5:
+			steps += 6
+			return "g"
+		case y < 6:
+			steps += 3
+			return "r"
+		case y < 8:
+			steps += 3
+			return fmt.Sprintf("c%d", inUse[r.Intn(len(inUse))])
+		default:
+			steps++
+			return "a"
+		}
+	}
+	for t := 0; t < k; t++ {
+		if t < racers {
+			if r.Intn(4) == 0 {
+				scripts[t] = append(scripts[t], rnd())
+			}
+			scripts[t] = append(scripts[t], cx)
+			steps += 3
+			for i := r.Intn(3); i > 0; i-- {
+				if r.Intn(4) == 0 {
+					scripts[t] = append(scripts[t], cx)
+					steps += 3
+				} else {
+					scripts[t] = append(scripts[t], rnd())
+				}
+			}
+		} else {
+			for i := 1 + r.Intn(3); i > 0; i-- {
+				scripts[t] = append(scripts[t], rnd())
+			}
+		}
+	}
+	sched := genSchedule(r, k, steps+steps/2+r.Intn(8))
+	emitConc(out, proto, k, pre, scripts, sched, fmt.Sprintf("conc/race-release/k%d", k))
 }
 
 func sortInts(a []int) {
@@ -718,17 +1203,43 @@ func genConc(r *vh.Rng, out *vh.Out) {
 		}
 	}
 	sched := genSchedule(r, k, steps+steps/2+r.Intn(8))
-	op := concLine(proto, k, pre, scripts, sched)
 	cls := fmt.Sprintf("conc/k%d", k)
 	if !protocol {
 		cls += "/noprotocol"
 	}
+	emitConc(out, proto, k, pre, scripts, sched, cls)
+}
+
+func emitConc(out *vh.Out, proto, k int, pre []string, scripts [][]string, sched []int, cls string) {
+	op := concLine(proto, k, pre, scripts, sched)
 	if proto > 2 {
 		cls += "/32768"
 	}
-	ans, _, verdict := runConc(proto, k, pre, scripts, sched, nil)
+	ans, _, verdict, ls := runConcX(proto, k, pre, scripts, sched, nil)
 	out.Case(op, ans, cls, true)
 	monCase(out, op, verdict)
+	if ls != nil {
+		if !ls.protocol {
+			out.Dist["mon-scope/no-client-protocol"]++
+		} else {
+			out.Dist["mon-scope/client-protocol"]++
+		}
+		if ls.c0 {
+			out.Dist["excluded/clear-0-called"]++
+		}
+		if ls.nRogue > 0 {
+			out.Dist["excluded/clear-cas-on-id-being-handed-out"]++
+		}
+		multi := false
+		for _, n := range ls.rel {
+			if n > 1 {
+				multi = true
+			}
+		}
+		if multi {
+			out.Dist["obs/id-released-twice-successfully(re-acquired-in-between)"]++
+		}
+	}
 	if strings.Contains(ans, "crash:negative") {
 		out.Dist["obs/crash-negative"]++
 	}
@@ -748,7 +1259,7 @@ func genConc(r *vh.Rng, out *vh.Out) {
 
 var monTick int
 
-// monCase emits the spec-backed form of a lock-step scenario (`mon conc …` → ok | violated:… | n/a):
+// monCase emits the spec-backed form of a lock-step scenario (`mon conc …` → ok | violated:…):
 // always when a monitor fired, otherwise for one scenario in eight.
 func monCase(out *vh.Out, concOp string, verdict string) {
 	monTick++
@@ -864,6 +1375,19 @@ func exhaustive(r *vh.Rng, out *vh.Out) {
 		enumerate(out, 2, 3, pre, [][]string{{"g", "r"}, {"g", "r"}, {"c5", "g"}}, 2, "exh/3x2/pre<=2", 60000)
 		enumerate(out, 2, 3, pre, [][]string{{"g", "g"}, {"g", "c6"}, {"c5", "g"}}, 2, "exh/3x2/pre<=2", 60000)
 	}
+	// racing double release of one id by two goroutines while a third acquires: ALL schedules
+	for _, pre := range [][]string{{"G1"}, {"G2", "c64"}, {"G127"}} {
+		enumerate(out, 2, 3, pre, [][]string{{"c1"}, {"c1"}, {"g"}}, -1, "exh/3x1/double-release/all", 60000)
+		enumerate(out, 2, 2, pre, [][]string{{"c1", "g"}, {"c1", "c1"}}, -1, "exh/2x2/double-release/all", 60000)
+		enumerate(out, 2, 3, pre, [][]string{{"c1", "a"}, {"c1"}, {"g", "r"}}, 3, "exh/3x2/double-release/pre<=3", 60000)
+	}
+	// every pair of holes of a full 128-id generator
+	for x := 1; x < 128; x++ {
+		for y := x + 1; y < 128; y++ {
+			op := fmt.Sprintf("smon 2 G127 c%d c%d g g g a", y, x)
+			out.Case(op, exec(op), "smon/two-holes/128", true)
+		}
+	}
 	_ = r
 }
 
@@ -896,6 +1420,8 @@ func main() {
 	if tier == "thorough" {
 		mult = 30
 		bigFillOneIn = 600
+		bigSmonOneIn = 1200
+		bigSmonBudget = 12
 	}
 	// fixed boundary scenarios: use every id sequentially, then fail, both capacities
 	for _, op := range []string{
@@ -921,11 +1447,65 @@ func main() {
 	} {
 		out.Case(op, exec(op), "conc/fixed", true)
 	}
+	// fixed sequential spec-monitor scenarios, both capacities: fill completely, release out of order (holes below
+	// and above the number of ids in use of a word, first / last word, id 1, id cap-1), refill completely, fail
+	for _, op := range []string{
+		"smon 2 G127 g a c70 a g g c1 c127 c64 c63 a G4 g a c5 c5 c200 g g",
+		"smon 1 G127 c127 c126 c3 c2 c1 G5 g c64 c100 c65 G3 g a",
+		"smon 2 G60 c3 c59 g g c1 c60 c61 g g g a",
+		"smon 4 G32767 g a c70 c1 c32767 c32704 c32703 c16384 c63 c64 a G7 g a c9 c9 c40000 g g",
+		"smon 2 g c0 g a",
+	} {
+		out.Case(op, exec(op), "smon/fixed", true)
+	}
+	// every single hole of a full 128-id generator: release x, GetStream must succeed, the next one must fail
+	for x := 1; x < 128; x++ {
+		op := fmt.Sprintf("smon 2 G127 c%d g g a", x)
+		out.Case(op, exec(op), "smon/single-hole/128", true)
+	}
+	// the same on ONE full 32768-id generator, for every position of the second word and ids at the borders
+	{
+		var holes []int
+		for x := 64; x < 128; x++ {
+			holes = append(holes, x)
+		}
+		holes = append(holes, 1, 2, 63, 128, 16383, 16384, 32703, 32704, 32705, 32766, 32767)
+		toks := []string{"G32767"}
+		for _, x := range holes {
+			toks = append(toks, fmt.Sprintf("c%d", x), "g", "g")
+		}
+		op := "smon 3 " + strings.Join(toks, " ")
+		out.Case(op, exec(op), "smon/single-hole/32768", true)
+	}
+	// fixed lock-step scenarios outside the client protocol: racing double release of one id by 2 and 3
+	// goroutines; double release racing the re-acquisition of the id (the excluded case 2: the unchanged code
+	// panics 'negative streams inuse', theorem C08_cex_double_release_negative); Clear(0) (excluded case 1)
+	for _, op := range []string{
+		"conc 2 2 P G5 T c3 T c3 S 01010101",
+		"conc 2 3 P G127 T c70 T c70 T c70 g S 012012012012012012012012",
+		"conc 2 3 P G2 c64 T c1 T c1 T g S 1000222211112",
+		"conc 2 2 P - T c0 T g S 00011111",
+	} {
+		op = strings.Replace(op, "P - T", "P T", 1)
+		ans, _, verdict := runConc(parseConcMust(op))
+		out.Case(op, ans, "conc/fixed", true)
+		out.Case("mon "+op, verdict, "mon/fixed", true)
+	}
 	for i := 0; i < 1500*mult; i++ {
 		genSeq(r, out)
 	}
-	for i := 0; i < 6000*mult; i++ {
+	smonN := 1500
+	if tier == "thorough" {
+		smonN = 15000 // the model pays ~3 ms per fill/release/refill scenario
+	}
+	for i := 0; i < smonN; i++ {
+		genSmon(r, out)
+	}
+	for i := 0; i < 5000*mult; i++ {
 		genConc(r, out)
+	}
+	for i := 0; i < 2500*mult; i++ {
+		genConcRace(r, out)
 	}
 	if tier == "thorough" {
 		exhaustive(r, out)
